@@ -623,7 +623,7 @@ func (st *e3State) step(op e3Op, rng *rand.Rand, part *h.Partial) []e3Verdict {
 		}
 
 	// ---- plain invocations of the task under test ------------------------------
-	case "run", "run-fail", "run-force", "run-force-fail", "run-yes", "kill", "run-cancel":
+	case "run", "run-fail", "run-force", "run-force-fail", "run-yes", "kill", "run-cancel", "run-cancel-force":
 		inv := e3Inv{args: sh.withVar(sh.TaskName), plain: true}
 		failFlag := ""
 		switch op.Kind {
@@ -659,8 +659,13 @@ func (st *e3State) step(op e3Op, rng *rand.Rand, part *h.Partial) []e3Verdict {
 				inv.args = append(inv.args, "--yes")
 				inv.yes = true
 			}
-		case "run-cancel":
+		case "run-cancel", "run-cancel-force":
 			inv.args = []string{"parent"}
+			if op.Kind == "run-cancel-force" {
+				// --force (which forces dependencies too unless the gentle-force experiment is on) re-runs the up-to-date dep; the failing sibling cancels it part-way
+				inv.args = []string{"--force", "parent"}
+				inv.force = true
+			}
 			inv.env = append(inv.env, "VERIF_SPIN=1")
 			if sh.Prompt {
 				inv.args = append(inv.args, "--yes")
@@ -679,7 +684,7 @@ func (st *e3State) step(op e3Op, rng *rand.Rand, part *h.Partial) []e3Verdict {
 		beforeOwn := h.Snap(filepath.Join(st.dir, ".task"), true)
 		noJudge := st.prevSet && st.prevOut == "killed-complete" && st.prevF == fNow && genOK && statusOK && !inv.force
 		r, tr := st.invoke(inv)
-		if op.Kind != "run-cancel" {
+		if !strings.HasPrefix(op.Kind, "run-cancel") {
 			if st.ownState == nil {
 				st.ownState = map[string]bool{}
 			}
@@ -714,9 +719,9 @@ func (st *e3State) step(op e3Op, rng *rand.Rand, part *h.Partial) []e3Verdict {
 			observed = "success"
 		case r.Exit == 205 && n == 0:
 			observed = "declined"
-		case op.Kind == "run-cancel" && n == 0 && (strings.Contains(r.Stderr, "is up to date") || expectSkip):
+		case strings.HasPrefix(op.Kind, "run-cancel") && n == 0 && (strings.Contains(r.Stderr, "is up to date") || expectSkip):
 			observed = "skipped"
-		case op.Kind == "run-cancel":
+		case strings.HasPrefix(op.Kind, "run-cancel"):
 			observed = "cancelled"
 		default:
 			observed = "failed"
@@ -1000,7 +1005,7 @@ func e3RandomHistory(rng *rand.Rand, s e3Shape, prop string, n int) []e3Op {
 			case 2:
 				ops = append(ops, e3Op{Kind: "run-other"})
 			case 3:
-				ops = append(ops, e3Op{Kind: "run-cancel"})
+				ops = append(ops, e3Op{Kind: []string{"run-cancel", "run-cancel-force"}[rng.Intn(2)]})
 			case 4:
 				ops = append(ops, e3Op{Kind: "run-force"})
 			}
@@ -1083,6 +1088,10 @@ func runE3(id string, start time.Time) int {
 							jobs = append(jobs, job{s, ops, "kill-revert-enum", i})
 							i++
 						}
+						jobs = append(jobs, job{s, []e3Op{{Kind: "run"}, {Kind: "run-cancel-force"}, {Kind: "run"}, {Kind: "run"}}, "cancel-enum", i})
+						i++
+						jobs = append(jobs, job{s, []e3Op{{Kind: "run"}, {Kind: "edit"}, {Kind: "run-cancel"}, {Kind: "run"}, {Kind: "run"}}, "cancel-enum", i})
+						i++
 						for k := 1; k <= n; k++ {
 							jobs = append(jobs, job{s, []e3Op{{Kind: "run"}, {Kind: "run-force-fail", K: k}, {Kind: "run"}, {Kind: "run"}}, "fail-enum", i})
 							i++
